@@ -53,7 +53,9 @@ PROFILES = {
     "C13": dict(tags={"output", "exit"}, names={"status"},
                 weights={"status": 18, "edit": 36, "add": 12, "commit": 5, "rm": 3}, ignore=True),
     "C14": dict(tags={"output", "exit"}, names={"log"},
-                weights={"log": 14, "commit": 20, "add": 18, "reset": 5, "switch": 4, "switch-c": 3, "edit": 22}),
+                weights={"log": 14, "commit": 20, "add": 18, "reset": 5, "switch": 4, "switch-c": 3, "edit": 22},
+                # few files with few contents: a later commit often has the same snapshot as an earlier one
+                components=[b"f", b"g", b"h"], depths=[1, 1, 2], contents=[b"1\n", b"2\n", b""]),
     "C17": dict(tags={"index", "output", "exit"}, names={"add", "status", "reset", "restore"},
                 weights={"add": 22, "status": 10, "edit": 30, "reset": 4, "restore": 4, "commit": 6}, ignore=True),
     "C18": dict(tags=ALL_TAGS, names=None, weights={"hostile": 16}, p_invalid=0.15),
